@@ -18,6 +18,12 @@ IsFin(v) == v > NINF /\ v < PINF
 
 Abs(x) == IF x < 0 THEN -x ELSE x
 Unit == 1000000
+\* logged instead of a fixed-point value: too large for the unit / nan / +inf / -inf
+FxBig == 2147000000
+FxNaN == 2147000001
+FxPInf == 2147000002
+FxNInf == -2147000002
+FxFinite(v) == Abs(v) < FxBig
 
 \* floor(N * 10^6 / D) by long division, D > 0 (TLC integers are 32 bit: needs 10*D < 2^31 and
 \* |N \div D| <= 2146).  \div and % are floor division / non-negative remainder.
